@@ -39,7 +39,7 @@ Qed.
    restores position, error list and user state exactly *)
 Lemma abandoned_leaves_no_trace n m g ctx s s' :
   go n m g ctx s = (Err, s') -> inv s ->
-  rewind s' (save s) = mkSt (cur s) (sec s) (alt s') (ust s).
+  rewind s' (save s) = mkSt (cur s) (sec s) (alt s') (ust s) (memo s').
 Proof.
   intros H Hi. pose proof (refine K toks spn n m g ctx s _ _ H Hi) as P. cbn in P.
   destruct P as (ext & _ & Hsec). eapply rewind_save; eauto.
@@ -72,7 +72,7 @@ Lemma run_top_ok n m g ov errs :
   run_top no_quirks K toks spn n m g = TRes (Some ov) errs ->
   exists v', sem_top K toks spn n g = Some (Some v', errs) /\ ov = bindv m v'.
 Proof.
-  unfold run_top, sem_top. destruct (go n m (ThenIgnore g End) VUnit init_st) as [r s'] eqn:E.
+  unfold run_top, sem_top. destruct (go n m (ThenIgnore g End) env0 init_st) as [r s'] eqn:E.
   pose proof (refine K toks spn n m _ _ _ _ _ E inv_init) as P.
   destruct r; try discriminate. intros H. injection H as <- <-.
   cbn in P. destruct P as (v' & p' & ems & Hs & Hv & Hc & Hsec & _). cbn in Hs, Hsec.
@@ -84,10 +84,10 @@ Qed.
 Lemma run_top_fail n m g errs :
   run_top no_quirks K toks spn n m g = TRes None errs ->
   exists junk prim a', errs = junk ++ [prim] /\
-    sem n (ThenIgnore g End) VUnit 0 None = Some (None, a') /\
+    sem n (ThenIgnore g End) env0 0 None = Some (None, a') /\
     (forall q e, a' = Some (q, e) -> prim = e).
 Proof.
-  unfold run_top. destruct (go n m (ThenIgnore g End) VUnit init_st) as [r s'] eqn:E.
+  unfold run_top. destruct (go n m (ThenIgnore g End) env0 init_st) as [r s'] eqn:E.
   pose proof (refine K toks spn n m _ _ _ _ _ E inv_init) as P.
   destruct r; try discriminate. intros H. injection H as <-.
   cbn in P. destruct P as (ext & Hs & Hsec). cbn in Hs. rewrite Hs.
@@ -99,7 +99,7 @@ Qed.
 Lemma no_output_has_error Q n m g errs :
   run_top Q K toks spn n m g = TRes None errs -> errs <> [].
 Proof.
-  unfold run_top. destruct (Machine.go Q K toks spn n m (ThenIgnore g End) VUnit init_st) as [[] s']; try discriminate.
+  unfold run_top. destruct (Machine.go Q K toks spn n m (ThenIgnore g End) env0 init_st) as [[] s']; try discriminate.
   intros H. injection H as <-. destruct (map snd (sec s')); discriminate.
 Qed.
 
@@ -110,11 +110,11 @@ Proof. intros H ->. now apply no_output_has_error in H. Qed.
 (* a result with an output means the grammar matched a prefix [0, p') and End held at p' *)
 Lemma parse_complete n m g ov errs :
   run_top no_quirks K toks spn (S n) m g = TRes (Some ov) errs ->
-  exists v' p' ems a', sem n g VUnit 0 None = Some (Some (v', p', ems), a') /\
+  exists v' p' ems a', sem n g env0 0 None = Some (Some (v', p', ems), a') /\
                        nth_error toks p' = None /\ ov = bindv m v'.
 Proof.
   intros H. apply run_top_ok in H. destruct H as (v' & Hs & ->). unfold sem_top in Hs. cbn in Hs.
-  destruct (sem n g VUnit 0 None) as [[[[[v p'] e]|] a']|]; try discriminate.
+  destruct (sem n g env0 0 None) as [[[[[v p'] e]|] a']|]; try discriminate.
   destruct n as [|n]; [discriminate|]. cbn in Hs.
   destruct (nth_error toks p') eqn:En; try discriminate.
   injection Hs as <- <-. do 4 eexists. repeat split; eauto.
@@ -136,7 +136,7 @@ Lemma run_top_check_is_emit Q n g :
     end.
 Proof.
   unfold run_top. rewrite (mode_independent Q K toks spn n).
-  destruct (Machine.go Q K toks spn n Emit (ThenIgnore g End) VUnit init_st) as [[] s']; reflexivity.
+  destruct (Machine.go Q K toks spn n Emit (ThenIgnore g End) env0 init_st) as [[] s']; reflexivity.
 Qed.
 
 End Corollaries.
